@@ -3,6 +3,59 @@ import QeepProps.C04x
 import QeepProps.C05x
 import QeepProofs.Calculus
 import QeepProofs.Real
+/-!
+# C02 (contraction and reduction family) — MatMul, Dot, MaxAlong / MinAlong, VarAlong / StdAlong
+
+Property C02: "each operation's backward rule is the vector-Jacobian product (VJP) of its forward function".
+`QeepProps.C02` has the element-wise rules (as derivatives), `QeepProps.C02x` the linear structural rules (as adjoints).
+This file has the remaining non-element-wise closures of `tensor/internal/gradtrack/gradients.go`; each theorem is about
+`Qeep.evalRule bm H gy rule`, the body of one Go `gradFn` closure. Index conventions as in `C04x`: big-endian multi-indices,
+`el t idx` = the element at `idx` (zero outside), `inner a b = Σ_k a_k·b_k` over row-major positions (`C02x.inner`).
+
+## 1. MatMul (bilinear) — operands `bd ++ [m,n]`, `bd ++ [n,k]` with ANY common batch shape `bd` (`bd = []`: matrices),
+upstream gradient `G : bd ++ [m,k]`; this is the general case, because `hMatMul` attaches the rules to the operands after
+`broadcastForMatMul`
+* `rule_matmulA` / `rule_matmulB` (any scalar domain): the closure succeeds, IS `G·Bᵀ` resp. `Aᵀ·G` (`vTranspose` then
+  `vMatMul`), has dims `bd ++ [m,n]` resp. `bd ++ [n,k]`, is well formed, and element `[b…,i,p]` is `Σ_j G[b…,i,j]·B[b…,p,j]`
+  resp. element `[b…,p,j]` is `Σ_i A[b…,i,p]·G[b…,i,j]` (left folds, the Go loop order); `rule_matmulA_real` / `_B_real`:
+  the same with `Finset` sums over ℝ;
+* `adjoint_matmulA`: `inner (dA·B) G = inner dA (G·Bᵀ)`; `adjoint_matmulB`: `inner (A·dB) G = inner dB (Aᵀ·G)` for all
+  directions `dA`, `dB` — the closures are the adjoints (VJPs) of the two partial linear maps; `adjoint_matmul_rank2`: the
+  plain-matrix case. `inner_batch2`: `inner` is the triple sum over batch position, row, column.
+
+## 2. Dot — operands `bd ++ [n]` (any leading shape), upstream gradient of dims `bd` (`bd = []`: scalar-shaped)
+* `rule_dot` / `rule_dot_real`: `rule(g)[b…,p] = g[b…] · other[b…,p]` (`gy.UnSqueeze(rank).Mul(other)`: the implicit
+  broadcast of the trailing size-1 dimension is carried out); `vDot_get`: the public forward call;
+* `adjoint_dot`: `inner (Dot(da, other)) g = inner da (rule g)`; `dot_vjp_real` (vectors): forward value `Σ a_k b_k`, rule
+  `[g·b_i]`, and `g·b_i = ∂(g·Σ_k a_k b_k)/∂a_i` (`d_dot`).
+
+## 4. MaxAlong / MinAlong (`Rule.extAlongX`)
+* `rule_extAlong` (any rank, any `dim`, any scalar domain): element `i` of the result is
+  `gy[i without dim] · Eq(x[i], y[i without dim])`, `Eq(a,b) = 1` if `Scalar.near a b` (`|a−b| ≤ 1e-240`) else `0`;
+* rank 1 along dim 0: `rule_extAlong_rank1`, `rule_extAlong_rank1_real`; `extAlong_max_select` / `extAlong_min_select`:
+  with `y` holding an upper (lower) bound `m` of the elements — as the maximum (minimum) is — the result is `g` exactly at
+  the positions with `x_p ≥ m − 1e-240` (`x_p ≤ m + 1e-240`) and `0` elsewhere: EVERY tied extremum receives the full `g`;
+* `maxAlong_vjp_deriv` / `minAlong_vjp_deriv`: with a unique extremum (margin `> 1e-240`) and `y` holding the true
+  extremum, the result is `g·e_i` and each entry is the partial derivative of `g·max(x)` (`g·min(x)`);
+* **finding (ℝ-instance artefact, not a code defect)**: `maxAlong_real_counterexample` — on the Model's ℝ instance
+  (`negInf = posInf = 0`) the forward Max of an all-negative vector is `0` and the rule then returns zeros.
+  `maxAlong_vjp_real_partial` / `minAlong_vjp_real_partial` (forward + backward on the instance itself: selection relative
+  to the instance's `Tensor.max` / `Tensor.min`) and `maxAlong_vjp_deriv_real_partial` / `minAlong_vjp_deriv_real_partial`
+  (derivative of the Model's own `Tensor.max` / `.min`, needing the extremum to be positive / negative) are the strongest
+  statements about the instance; `along_rank1_fwd`: the forward `…Along(0)` of a vector.
+
+## 3. VarAlong / StdAlong, rank-1 operand along dim 0 (the fibre is the whole vector)
+* `rule_varAlong_rank1` / `rule_stdAlong_rank1` (any scalar domain): `n = 1` → `x.Scale(0)`; otherwise
+  `[g · (2/(n−1)) · (x_p − mean)]_p` resp. `[g · (1/(n−1)) · ((x_p − mean)/s)]_p`, `s` the forward Std stored in `y`;
+* calculus (Mathlib): `d_varF`: `∂Var/∂x_i = 2(x_i − mean)/(n−1)`; `d_stdF`: `∂Std/∂x_i = (x_i − mean)/((n−1)·Std)` where
+  `Var ≠ 0`; `mean_ofFn` / `var_ofFn` / `std_ofFn`: the Model's `Tensor.mean/var/std` of `⟨[n], List.ofFn x⟩` ARE these;
+* `varAlong_vjp_real`, `stdAlong_vjp_real` (`n ≥ 2`): rule value and `HasDerivAt (fun t => g · Tensor.var/std (x with
+  x_i := t)) (rule entry i) (x_i)`; `varStdAlong_one_real`: the `n = 1` branch returns `[0]`, and the Model's Var / Std of a
+  one-element vector are constantly `0`.
+
+Every rule theorem has a kernel-checked (`decide`) witness on the `Scalar Int` instance next to it.
+Not proved here: VarAlong / StdAlong for rank > 1 or `dim ≠ 0` (the rule text is the same per fibre).
+-/
 set_option linter.unusedSimpArgs false
 set_option linter.unusedSectionVars false
 set_option linter.unusedVariables false
@@ -20,6 +73,9 @@ variable {α : Type}
 section matmul
 variable [Scalar α]
 
+/-- **`gradtrack.MatMul`, first operand: `gradFn = y.Gradient().MatMul(b.Transpose())`.** For `B : bd ++ [n,k]` and an
+    upstream gradient `G : bd ++ [m,k]` (any common batch shape, all sizes): the closure succeeds, is `G·Bᵀ`, has the first
+    operand's dims `bd ++ [m,n]`, and `(G·Bᵀ)[b…,i,p] = Σ_j G[b…,i,j]·B[b…,p,j]`. -/
 theorem rule_matmulA (bm : BMode) (H : Heap α) (G : Tensor α) (b : Nat) (bd : List Nat) (m n k : Nat)
     (wG : G.WF) (wB : (H.val b).WF) (hdG : G.dims = bd ++ [m, k]) (hdB : (H.val b).dims = bd ++ [n, k]) :
     ∃ Bt r, vTranspose (H.val b) = .ok Bt ∧ vMatMul G Bt = .ok r ∧
@@ -41,6 +97,9 @@ theorem rule_matmulA (bm : BMode) (H : Heap α) (G : Tensor α) (b : Nat) (bd : 
     have e1 : el Bt (pre ++ [j, p]) = el (H.val b) (pre ++ [p, j]) := by unfold el; rw [hBt pre j p hv hj' hp]
     rw [e1]
 
+/-- **`gradtrack.MatMul`, second operand: `gradFn = a.Transpose().MatMul(y.Gradient())`.** For `A : bd ++ [m,n]` and
+    `G : bd ++ [m,k]`: the closure succeeds, is `Aᵀ·G`, has the second operand's dims `bd ++ [n,k]`, and
+    `(Aᵀ·G)[b…,p,j] = Σ_i A[b…,i,p]·G[b…,i,j]`. -/
 theorem rule_matmulB (bm : BMode) (H : Heap α) (G : Tensor α) (a : Nat) (bd : List Nat) (m n k : Nat)
     (wG : G.WF) (wA : (H.val a).WF) (hdG : G.dims = bd ++ [m, k]) (hdA : (H.val a).dims = bd ++ [m, n]) :
     ∃ At r, vTranspose (H.val a) = .ok At ∧ vMatMul At G = .ok r ∧
